@@ -2,6 +2,7 @@
 //! Nothing in here calls `yata::methods` or `yata::indicators`.
 
 pub mod sel;
+pub mod win;
 
 /// The last `n` entries of the padded history ending at position `t` (inclusive), oldest
 /// first. Positions before the start of the stream hold the construction value.
